@@ -246,4 +246,172 @@ theorem variance_split_2d (r : ℝ) (hr : r ≠ 0) :
       rw [this]; simp; ring
     rw [h]; field_simp; ring
 
+/-- the unit wave vector `RNG.sample_sphere(3)` builds from an angle `a` and a height `w`:
+    `(√(1−w²) cos a, √(1−w²) sin a, w)`; uniform on the sphere for `a ~ U(0,2π)`, `w ~ U(−1,1)` (Archimedes) -/
+noncomputable def dir3 (a w : ℝ) : Nat → Nat → ℝ := fun d _ =>
+  if d = 0 then Real.sqrt (1 - w ^ 2) * Real.cos a else if d = 1 then Real.sqrt (1 - w ^ 2) * Real.sin a else w
+
+theorem absSq_dir3 (r a w : ℝ) (hw : w ∈ Set.uIcc (-1:ℝ) 1) :
+    absSq (fun d j => r * dir3 a w d j) 3 0 = r ^ 2 := by
+  rw [Set.uIcc_of_le (by norm_num)] at hw
+  have h1 : 0 ≤ 1 - w ^ 2 := by nlinarith [hw.1, hw.2]
+  rw [absSq_real]
+  simp only [dir3, sum_range_succ, sum_range_zero]
+  norm_num
+  have hs := Real.sq_sqrt h1
+  have := Real.sin_sq_add_cos_sq a
+  have e : (r * (Real.sqrt (1 - w ^ 2) * Real.cos a)) ^ 2 + (r * (Real.sqrt (1 - w ^ 2) * Real.sin a)) ^ 2 + (r * w) ^ 2
+      = r ^ 2 * (Real.sqrt (1 - w ^ 2) ^ 2 * (Real.sin a ^ 2 + Real.cos a ^ 2) + w ^ 2) := by ring
+  rw [e, hs, this]; ring
+
+theorem proj_dir3_sq (r a w : ℝ) (hr : r ≠ 0) (hw : w ∈ Set.uIcc (-1:ℝ) 1) :
+    (proj (fun d j => r * dir3 a w d j) 3 0 0) ^ 2
+        = 1 + (-2 * Real.cos a ^ 2 + Real.cos a ^ 4) + (2 * Real.cos a ^ 2 - 2 * Real.cos a ^ 4) * w ^ 2
+            + Real.cos a ^ 4 * w ^ 4 ∧
+    (proj (fun d j => r * dir3 a w d j) 3 0 1) ^ 2
+        = Real.sin a ^ 2 * Real.cos a ^ 2 + (-2 * (Real.sin a ^ 2 * Real.cos a ^ 2)) * w ^ 2
+            + Real.sin a ^ 2 * Real.cos a ^ 2 * w ^ 4 ∧
+    (proj (fun d j => r * dir3 a w d j) 3 0 2) ^ 2
+        = 0 + Real.cos a ^ 2 * w ^ 2 + (-Real.cos a ^ 2) * w ^ 4 := by
+  have hw' := hw
+  rw [Set.uIcc_of_le (by norm_num)] at hw'
+  have h1 : 0 ≤ 1 - w ^ 2 := by nlinarith [hw'.1, hw'.2]
+  have hs := Real.sq_sqrt h1
+  unfold proj
+  rw [absSq_dir3 r a w hw]
+  simp only [e1_real, dir3]
+  norm_num
+  have hr2 : r ^ 2 ≠ 0 := pow_ne_zero 2 hr
+  set s := Real.sqrt (1 - w ^ 2) with hsdef
+  refine ⟨?_, ?_, ?_⟩
+  · have : r * (s * Real.cos a) * (r * (s * Real.cos a)) / r ^ 2 = s ^ 2 * Real.cos a ^ 2 := by
+      field_simp
+    rw [this, hs]; ring
+  · have : r * (s * Real.sin a) * (r * (s * Real.cos a)) / r ^ 2 = s ^ 2 * (Real.sin a * Real.cos a) := by
+      field_simp
+    rw [this, hs]; ring
+  · have : r * w * (r * (s * Real.cos a)) / r ^ 2 = w * s * Real.cos a := by
+      field_simp
+    rw [this]
+    have : (w * s * Real.cos a) ^ 2 = w ^ 2 * s ^ 2 * Real.cos a ^ 2 := by ring
+    rw [this, hs]; ring
+
+/-- **variance split, 3-D**: averaged over a uniformly distributed direction on the sphere (in the
+    sampler's own parametrisation), the squared projector components are `8/15`, `1/15`, `1/15` -/
+theorem variance_split_3d (r : ℝ) (hr : r ≠ 0) :
+    (1 / (4 * Real.pi)) * ∫ a in (0:ℝ)..(2 * Real.pi), ∫ w in (-1:ℝ)..1,
+        (proj (fun d j => r * dir3 a w d j) 3 0 0) ^ 2 = 8 / 15 ∧
+    (1 / (4 * Real.pi)) * ∫ a in (0:ℝ)..(2 * Real.pi), ∫ w in (-1:ℝ)..1,
+        (proj (fun d j => r * dir3 a w d j) 3 0 1) ^ 2 = 1 / 15 ∧
+    (1 / (4 * Real.pi)) * ∫ a in (0:ℝ)..(2 * Real.pi), ∫ w in (-1:ℝ)..1,
+        (proj (fun d j => r * dir3 a w d j) 3 0 2) ^ 2 = 1 / 15 := by
+  have hpi : Real.pi ≠ 0 := Real.pi_ne_zero
+  have i0 : ∀ a : ℝ, ∫ w in (-1:ℝ)..1, (proj (fun d j => r * dir3 a w d j) 3 0 0) ^ 2
+      = 2 * (1 + (-2 * Real.cos a ^ 2 + Real.cos a ^ 4)) + 2 / 3 * (2 * Real.cos a ^ 2 - 2 * Real.cos a ^ 4)
+        + 2 / 5 * Real.cos a ^ 4 := by
+    intro a
+    rw [intervalIntegral.integral_congr (fun w hw => (proj_dir3_sq r a w hr hw).1)]
+    exact integral_even_quartic _ _ _
+  have i1 : ∀ a : ℝ, ∫ w in (-1:ℝ)..1, (proj (fun d j => r * dir3 a w d j) 3 0 1) ^ 2
+      = 2 * (Real.sin a ^ 2 * Real.cos a ^ 2) + 2 / 3 * (-2 * (Real.sin a ^ 2 * Real.cos a ^ 2))
+        + 2 / 5 * (Real.sin a ^ 2 * Real.cos a ^ 2) := by
+    intro a
+    rw [intervalIntegral.integral_congr (fun w hw => (proj_dir3_sq r a w hr hw).2.1)]
+    exact integral_even_quartic _ _ _
+  have i2 : ∀ a : ℝ, ∫ w in (-1:ℝ)..1, (proj (fun d j => r * dir3 a w d j) 3 0 2) ^ 2
+      = 2 * 0 + 2 / 3 * Real.cos a ^ 2 + 2 / 5 * (-Real.cos a ^ 2) := by
+    intro a
+    rw [intervalIntegral.integral_congr (fun w hw => (proj_dir3_sq r a w hr hw).2.2)]
+    exact integral_even_quartic _ _ _
+  refine ⟨?_, ?_, ?_⟩
+  · simp only [i0]
+    have e : ∀ a : ℝ, 2 * (1 + (-2 * Real.cos a ^ 2 + Real.cos a ^ 4)) + 2 / 3 * (2 * Real.cos a ^ 2 - 2 * Real.cos a ^ 4)
+        + 2 / 5 * Real.cos a ^ 4 = 2 + (-8 / 3) * Real.cos a ^ 2 + (16 / 15) * Real.cos a ^ 4 := fun a => by ring
+    simp only [e]
+    rw [integral_cos_quartic_two_pi]
+    field_simp
+    ring
+  · simp only [i1]
+    have e : ∀ a : ℝ, 2 * (Real.sin a ^ 2 * Real.cos a ^ 2) + 2 / 3 * (-2 * (Real.sin a ^ 2 * Real.cos a ^ 2))
+        + 2 / 5 * (Real.sin a ^ 2 * Real.cos a ^ 2) = (16 / 15) * (Real.sin a ^ 2 * Real.cos a ^ 2) := fun a => by ring
+    simp only [e]
+    rw [intervalIntegral.integral_const_mul, integral_sin_sq_mul_cos_sq_two_pi]
+    field_simp
+    ring
+  · simp only [i2]
+    have e : ∀ a : ℝ, 2 * 0 + 2 / 3 * Real.cos a ^ 2 + 2 / 5 * (-Real.cos a ^ 2) = (4 / 15) * Real.cos a ^ 2 := fun a => by ring
+    simp only [e]
+    rw [intervalIntegral.integral_const_mul, integral_cos_sq_two_pi]
+    field_simp
+
+/-! ### variance for a fixed mode set -/
+
+/-- the squared projector components add up to the axis-0 component: `Σ_d p_d² = 1 − k_0²/|k|² = p_0`
+    (so the shares add up to `E sin²` of the polar angle: 1/2 in 2-D, 2/3 in 3-D) -/
+theorem proj_norm_sq (k : Nat → Nat → ℝ) {dim : Nat} (j : Nat) (hdim : 0 < dim) (hk : absSq k dim j ≠ 0) :
+    ∑ d ∈ range dim, proj k dim j d ^ 2 = proj k dim j 0 := by
+  have horth := projector_orthogonal k j hdim hk
+  have h1 : ∀ d ∈ range dim, proj k dim j d ^ 2
+      = (e1 d : ℝ) * proj k dim j d - k 0 j / absSq k dim j * (proj k dim j d * k d j) := by
+    intro d _
+    unfold proj; ring
+  rw [sum_congr rfl h1, sum_sub_distrib, ← mul_sum, horth, mul_zero, sub_zero, sum_e1_mul _ hdim]
+
+/-- **variance for fixed modes**: if the amplitudes are square-integrable, uncorrelated and of unit
+    second moment, the second moment of `u_d(x) − mean_u·e1_d` is `mean_u² · var/N · Σ_j p_d(k_j)²` at
+    every point.  Together with `variance_split_2d/3d` (average of `p_d²` over a uniform direction)
+    this is the split `mean_u²·var·(3/8, 1/8)` resp. `(8/15, 1/15, 1/15)`. -/
+theorem variance_given_modes {Ω : Type} [MeasurableSpace Ω] (μ : Measure Ω)
+    (meanU var : ℝ) (hvar : 0 ≤ var) (k : Nat → Nat → ℝ) {dim d : Nat} (N : Nat) (hd : d < dim)
+    (Z1 Z2 : Nat → Ω → ℝ)
+    (hL1 : ∀ j < N, MemLp (Z1 j) 2 μ) (hL2 : ∀ j < N, MemLp (Z2 j) 2 μ)
+    (h11 : ∀ i < N, ∀ j < N, ∫ ω, Z1 i ω * Z1 j ω ∂μ = if i = j then 1 else 0)
+    (h22 : ∀ i < N, ∀ j < N, ∫ ω, Z2 i ω * Z2 j ω ∂μ = if i = j then 1 else 0)
+    (h12 : ∀ i < N, ∀ j < N, ∫ ω, Z1 i ω * Z2 j ω ∂μ = 0) (x : Nat → ℝ) :
+    ∫ ω, (genField meanU var k (fun j => Z1 j ω) (fun j => Z2 j ω) dim N d x - meanU * e1 d) ^ 2 ∂μ
+      = meanU ^ 2 * (var / (N : ℝ)) * ∑ j ∈ range N, proj k dim j d ^ 2 := by
+  set c : Nat → ℝ := fun j => Real.cos (phase k dim j x) with hc
+  set s : Nat → ℝ := fun j => Real.sin (phase k dim j x) with hs
+  set ξ : Nat → Ω → ℝ := fun j ω => Z1 j ω * c j + Z2 j ω * s j with hξ
+  have hfield : ∀ ω, (genField meanU var k (fun j => Z1 j ω) (fun j => Z2 j ω) dim N d x - meanU * e1 d) ^ 2
+      = meanU ^ 2 * (var / (N : ℝ)) * (∑ j ∈ range N, proj k dim j d * ξ j ω) ^ 2 := by
+    intro ω
+    unfold genField
+    rw [kernelField_eq_sum k _ _ N hd x, add_sub_cancel_left, mul_pow, mul_pow,
+      Real.sq_sqrt (div_nonneg hvar (Nat.cast_nonneg N))]
+  have i11 : ∀ i < N, ∀ j < N, Integrable (fun ω => Z1 i ω * Z1 j ω) μ := fun i hi j hj =>
+    (hL1 i hi).integrable_mul (hL1 j hj)
+  have i22 : ∀ i < N, ∀ j < N, Integrable (fun ω => Z2 i ω * Z2 j ω) μ := fun i hi j hj =>
+    (hL2 i hi).integrable_mul (hL2 j hj)
+  have i12 : ∀ i < N, ∀ j < N, Integrable (fun ω => Z1 i ω * Z2 j ω) μ := fun i hi j hj =>
+    (hL1 i hi).integrable_mul (hL2 j hj)
+  have hexp : ∀ i j ω, ξ i ω * ξ j ω = (c i * c j) * (Z1 i ω * Z1 j ω) + (c i * s j) * (Z1 i ω * Z2 j ω)
+      + ((s i * c j) * (Z1 j ω * Z2 i ω) + (s i * s j) * (Z2 i ω * Z2 j ω)) := by
+    intro i j ω; simp only [hξ]; ring
+  have hint : ∀ i < N, ∀ j < N, Integrable (fun ω => ξ i ω * ξ j ω) μ := by
+    intro i hi j hj
+    simp only [hexp]
+    exact (((i11 i hi j hj).const_mul _).add ((i12 i hi j hj).const_mul _)).add
+      (((i12 j hj i hi).const_mul _).add ((i22 i hi j hj).const_mul _))
+  have horth : ∀ i < N, ∀ j < N, ∫ ω, ξ i ω * ξ j ω ∂μ = if i = j then 1 else 0 := by
+    intro i hi j hj
+    simp only [hexp]
+    have ia : Integrable (fun ω => c i * c j * (Z1 i ω * Z1 j ω)) μ := (i11 i hi j hj).const_mul _
+    have ib : Integrable (fun ω => c i * s j * (Z1 i ω * Z2 j ω)) μ := (i12 i hi j hj).const_mul _
+    have ic : Integrable (fun ω => s i * c j * (Z1 j ω * Z2 i ω)) μ := (i12 j hj i hi).const_mul _
+    have id' : Integrable (fun ω => s i * s j * (Z2 i ω * Z2 j ω)) μ := (i22 i hi j hj).const_mul _
+    have iab : Integrable (fun ω => c i * c j * (Z1 i ω * Z1 j ω) + c i * s j * (Z1 i ω * Z2 j ω)) μ := ia.add ib
+    have icd : Integrable (fun ω => s i * c j * (Z1 j ω * Z2 i ω) + s i * s j * (Z2 i ω * Z2 j ω)) μ := ic.add id'
+    rw [integral_add iab icd, integral_add ia ib, integral_add ic id',
+      integral_const_mul, integral_const_mul, integral_const_mul, integral_const_mul,
+      h11 i hi j hj, h22 i hi j hj, h12 i hi j hj, h12 j hj i hi]
+    by_cases hij : i = j
+    · subst hij
+      simp only [if_true, hc, hs]
+      have := Real.sin_sq_add_cos_sq (phase k dim i x)
+      nlinarith [this]
+    · simp [hij]
+  simp only [hfield]
+  rw [integral_const_mul, integral_sq_sum_orthonormal μ N _ ξ hint horth]
+
 end GSV.Props.C16
